@@ -82,7 +82,9 @@ def h_critical(ctx, cfg):
 def h_levinson_parcor(ctx, cfg):
   from audiolazy.lazy_lpc import levinson_durbin, parcor
   p = cfg["p"]
-  r = ctx.reals("r", p + 1)
+  n = cfg.get("n", p + 1)                     # lags given; the order asked for may be >= n (zero extension)
+  given = ctx.reals("r", n)
+  r = list(given) + [0] * (p + 1 - n)
   # reference Levinson recursion
   a = [1]; E = r[0]; ks = []
   try:
@@ -101,7 +103,7 @@ def h_levinson_parcor(ctx, cfg):
   for k in ks[1:]:
     if bool(Or(k == 1, k == -1)): ctx.exclude("critical reflection coefficient")
   try:
-    filt = levinson_durbin(list(r))
+    filt = levinson_durbin(list(r)) if n == p + 1 else levinson_durbin(list(given), p)
     got = list(parcor(filt))
   except ZeroDivisionError:
     ctx.exclude("recursion divides by zero")
@@ -164,6 +166,8 @@ def tasks(tier, seed):
       if p <= 3: T.append(("h_critical", {"p": p, "crit": crit}))
   for p in ((1, 2) if not big else (1, 2, 3)):
     T.append(("h_levinson_parcor", {"p": p}, {"optional": p >= 3}))
+  T.append(("h_levinson_parcor", {"p": 2, "n": 2}))       # order == len(lags): zero extension
+  if big: T.append(("h_levinson_parcor", {"p": 3, "n": 2}, {"optional": True}))
   for real, pairs in ((1, 0), (2, 0), (0, 1)):
     T.append(("h_stable", {"real": real, "pairs": pairs}))
     T.append(("h_stable", {"real": real, "pairs": pairs, "num": True}))
